@@ -148,6 +148,14 @@ claim("C21",
       "Atom::new_inlined; Atom::cmp = str::cmp on the texts.",
       "interned (dynamic) atoms - IndexSet, RCU, locks, table growth - are outside.",
       K + " + finite z3 table check", "DESIGN.md §4 C21", engine="kani+z3")
+claim("C23",
+      "M: arg/3 only. Every path of MachineState::try_arg: on a structure Arg is unified exactly when "
+      "1 <= N <= arity, with the cell at o + N; on a list exactly when N is 1 or 2, with the cell at "
+      "l + N - 1 (z3 over 64-bit words, for N held as a fixnum and as a bignum cell); otherwise the goal "
+      "fails; unbound / non-integer / negative N and unbound / atomic Term raise the ISO errors.",
+      "functor/3, =../2, copy_term/2, term_variables/2, ground/1, subsumes_term/2 and the string arm "
+      "of arg/3 are outside.",
+      M, "DESIGN.md §4 C23", engine="mirsmt")
 claim("C30",
       "K: with heap growth failing (realloc's failure contract injected at InnerHeap::grow) "
       "every fallible Heap operation returns AllocError and leaves length, capacity, pointer, "
@@ -175,7 +183,6 @@ NOT_APPLICABLE = {
     "C17": "same entry points as C16 (Lexer, Parser, read_term): need MachineState",
     "C19": "Stream is an arena-allocated enum over files/sockets/TLS/pipes; reaching it pulls tokio/parking_lot thread-locals (Kani ICE) and real I/O; the decoding layer under it is C18",
     "C22": "Machine methods in system_calls.rs + Prolog-level atom_concat/sub_atom",
-    "C23": "copy_term/term_variables/functor/arg operate on MachineState (heap+stack+trail+attr-var queues)",
     "C24": "CBMC needs 218 s for the cycle detector on one concrete 3-cell graph and times out with a single symbolic cell: only concrete graphs run, which is testing, not solving",
     "C25": "findall/bagof/setof: Prolog-level + lifted-heap copying on Machine",
     "C26": "dif/freeze/when: Prolog-level attribute hooks scheduled by the dispatch loop",
